@@ -177,6 +177,15 @@ def render(spec):
         tail += ("from nanite.model import residuals as _r\n"
                  "model = _r.get_default_modeling_wrapper(model_func)\n"
                  "residual = _r.get_default_residuals_wrapper(model_func)\n")
+    if spec.get("own_model") and deleted != "model_func" \
+            and not spec.get("own_wrappers"):
+        # the module brings its own modelling wrapper (recognisable by a
+        # constant offset) but leaves the residuals to the library
+        tail += ("from nanite.model import residuals as _r\n"
+                 "_dm = _r.get_default_modeling_wrapper(model_func)\n"
+                 f"OWN_OFFSET = {spec['own_model']!r}\n\n\n"
+                 "def model(params, x):\n"
+                 "    return _dm(params, x) + OWN_OFFSET\n")
     extra = spec.get("prelude", "")
     src = TEMPLATE.format(
         extra_import=extra, sim_id=spec_id(spec), scale=spec.get("scale", 1.0),
@@ -271,6 +280,8 @@ class RegistryEngine:
                     "own_wrappers": rng.random() < 0.3}
             if rng.random() < 0.3:
                 spec["argswap"] = True
+            if rng.random() < 0.2:
+                spec["own_model"] = rng.choice([2.5e-12, -1e-12])
             if rng.random() < 0.5 or (
                     mutant and mutant.get("attr") in ANC_TRIO + [
                         "compute_ancillaries"]):
@@ -670,7 +681,8 @@ class RegistryEngine:
         # behaves like shipped code: fit with a scale-1 model
         if violation is None:
             for k, sp in ref.items():
-                if sp.get("scale", 1.0) == 1.0 and not eff_anc(sp):
+                if sp.get("scale", 1.0) == 1.0 and not eff_anc(sp) and \
+                        not sp.get("own_model"):
                     violation = self.check_fit_twin(k, run["config"]["curve"])
                     probes["fit compared with shipped twin"] += 1
                     oracle_checks += 1
@@ -755,6 +767,17 @@ class RegistryEngine:
 
     def check_identity(self, md, spec, feats, i, where):
         """M4 / M1: `md` is the model the spec describes."""
+        try:
+            # a consistent model answers every documented lookup
+            return self._check_identity(md, spec, feats, i, where)
+        except _caught() as e:
+            return make_violation(
+                self.prop, "M4" if where == "returned" else "M1",
+                f"lookup-raises:{type(e).__name__}", dict(feats, where=where),
+                f"a documented lookup on the {where} model {spec['key']} "
+                f"raised {type(e).__name__}: {e}", i)
+
+    def _check_identity(self, md, spec, feats, i, where):
         sid = spec_id(spec)
         got = getattr(getattr(md, "module", None), "SIM_ID", None)
         if got != sid:
@@ -818,7 +841,11 @@ class RegistryEngine:
             if not desc:
                 exp = exp[::-1]
             got = md.model(params, delta)
-            if digest_array(np.asarray(got)) != digest_array(exp):
+            own = spec.get("own_model") if not spec.get("own_wrappers") \
+                and (spec.get("mutant") or {}).get("attr") != "model_func" \
+                else None
+            if digest_array(np.asarray(got)) != digest_array(
+                    exp + own if own else exp):
                 return make_violation(
                     self.prop, "M4", "model-output", dict(feats, desc=desc),
                     "model wrapper output differs from the module's "
@@ -910,6 +937,10 @@ class RegistryEngine:
         if op.get("spec", {}).get("own_wrappers"):
             o = copy.deepcopy(op)
             o["spec"]["own_wrappers"] = False
+            yield o
+        if op.get("spec", {}).get("own_model"):
+            o = copy.deepcopy(op)
+            o["spec"].pop("own_model")
             yield o
         if op.get("dir_on_path"):
             o = dict(op)
